@@ -24,7 +24,7 @@ LEVEL = 'fault_enumeration'
 WORKERS = {'quick': 8, 'thorough': 14}
 BUDGET_S = {'quick': 40, 'thorough': 300}
 REQUIRED_COUNTERS = ['patterns', 'patterns_exhaustive', 'function_calls_logged', 'output_rows_compared', 'nothing_accepted_patterns', 'second_run_refused',
-                     'long_failure_runs']
+                     'long_failure_runs', 'check_before_run']
 RULE = ('a case = a block of accept / ResynchroError / other-Exception / return-None patterns over the N input traces: ALL 4^N patterns for N <= 4 (quick) / '
         '5 (thorough) (flag exhaustive), plus random patterns to N = 60 with runs of >= 8 and >= 16 consecutive failures; output given as str | Path; '
         'returned data shorter than, equal to or longer than the input trace; 2-3 metadata fields of different dtypes; non-trivial = the function '
@@ -53,7 +53,7 @@ def cases(tier, seed):
     return out
 
 
-def _one(t, tmpdir, k, pattern, outlen, as_path, exhaustive, meta_kind=0, dtype='float32'):
+def _one(t, tmpdir, k, pattern, outlen, as_path, exhaustive, meta_kind=0, dtype='float32', pre_check=0):
     import scared
     import estraces
     N, L = len(pattern), 7
@@ -71,9 +71,14 @@ def _one(t, tmpdir, k, pattern, outlen, as_path, exhaustive, meta_kind=0, dtype=
             return (samples[i, :outlen] * 2 + i).astype(dtype)
         return np.concatenate([samples[i], np.full(outlen - L, float(i), dtype=dtype)])
 
+    phase = dict(run=False, check_calls=0)
+
     def f(trace_object):
         i = int(trace_object.idx[0])
-        calls.append(i)
+        if not phase['run']:
+            phase['check_calls'] += 1          # called by Synchronizer.check(), before run()
+        else:
+            calls.append(i)
         a = pattern[i]
         if a == 'r':
             raise scared.ResynchroError('rejected by the monitor')
@@ -94,6 +99,17 @@ def _one(t, tmpdir, k, pattern, outlen, as_path, exhaustive, meta_kind=0, dtype=
     if exhaustive:
         t.count('patterns_exhaustive')
     o, err = None, None
+    if pre_check:
+        # the documented way of trying the function out before the real run: it must leave no trace in the run
+        import contextlib
+        import io
+        with contextlib.redirect_stdout(io.StringIO()), warnings.catch_warnings():
+            warnings.simplefilter('ignore')
+            for _ in range(pre_check):
+                s.check(nb_traces=min(N, 3))
+        t.count('check_before_run')
+        # (nothing is asserted here: the property speaks of the state after run(); a trace left by check() shows in the counters / output below)
+    phase['run'] = True
     with warnings.catch_warnings():
         warnings.simplefilter('ignore')
         try:
@@ -155,7 +171,7 @@ def run_case(case):
     try:
         if case['gen'] == 'exh':
             for k, p in enumerate(case['patterns']):
-                _one(t, tmpdir, k, p, case['outlen'], case['as_path'], True, meta_kind=k % 2)
+                _one(t, tmpdir, k, p, case['outlen'], case['as_path'], True, meta_kind=k % 2, pre_check=(1 if k % 4 == 3 else 0))
             sig = f"exh|{len(case['patterns'][0])}|{case['patterns'][0]}|{case['outlen']}|{case['as_path']}"
         else:
             rng = gen.rng_of(case['sub'])
@@ -177,7 +193,7 @@ def run_case(case):
                 elif edge == 2:
                     p[0], p[-1] = 'a', 'a'
                 _one(t, tmpdir, k, ''.join(p), int(rng.choice([3, 7, 12, 1])), bool(rng.integers(2)), False, meta_kind=int(rng.integers(2)),
-                     dtype=['float32', 'float64', 'int16'][int(rng.integers(3))])
+                     dtype=['float32', 'float64', 'int16'][int(rng.integers(3))], pre_check=int(rng.choice([0, 0, 1, 2])))
             sig = f"rand|{case['sub']}"
     finally:
         shutil.rmtree(tmpdir, ignore_errors=True)
